@@ -68,10 +68,11 @@ type c17Result struct {
 	SameOptionShare  int      `json:"same_option_share"`
 	LockProbes       int      `json:"lock_probes"`
 	HeldProbes       int      `json:"held_probes"`
+	BadOpens         int      `json:"bad_opens"`
 	Done             bool     `json:"done"`
 }
 
-var c17OptStrings = []string{"", "?preload=true", "?lrucache=true&lrucachesize=2000", "?preload=true&lrucache=true&lrucachesize=100000"}
+var c17OptStrings = []string{"", "?preload=true", "?lrucache=true&lrucachesize=2000", "?preload=true&lrucache=true&lrucachesize=100000", "?lrucachesize=100000&lrucache=true&preload=true"}
 
 func workerC17(args []string) int {
 	b, err := os.ReadFile(args[0])
@@ -195,6 +196,38 @@ func workerC17(args []string) int {
 					hd.db.SetMaxOpenConns(op.N)
 					hd.db.SetMaxIdleConns(op.N)
 				}
+			case "idle0":
+				// no idle connections: database/sql closes the driver connection after every use
+				if hd := handles[op.H]; hd != nil && !hd.closed {
+					hd.db.SetMaxIdleConns(0)
+				}
+			case "lifetime":
+				if hd := handles[op.H]; hd != nil && !hd.closed {
+					hd.db.SetConnMaxLifetime(time.Nanosecond)
+				}
+			case "open-bad":
+				// a data source that cannot be opened: the error must come back and must not disturb other handles
+				dsn := "file:" + spec.Files[op.File].Path + "?lrucache=true&lrucachesize=notanumber"
+				if op.N == 1 {
+					dsn = "file:" + spec.Files[op.File].Path + ".does-not-exist"
+				}
+				bad, err := sql.Open("updog", dsn)
+				if err == nil {
+					var qerr error
+					if p, msg, _ := vf.Try(func() {
+						var rows *sql.Rows
+						rows, qerr = bad.Query(spec.Files[op.File].Queries[0].Text)
+						if qerr == nil {
+							rows.Close()
+						}
+					}); p {
+						add("op %d: query on an unopenable data source panicked: %s", oi, msg)
+					} else if qerr == nil {
+						add("op %d: query on the unopenable data source %q succeeded", oi, dsn)
+					}
+					vf.Try(func() { bad.Close() })
+				}
+				res.BadOpens++
 			case "query", "stmt":
 				hd := handles[op.H]
 				if hd == nil || hd.closed {
@@ -300,7 +333,7 @@ func workerC17(args []string) int {
 						everClosedAll[hd.file] = true
 					}
 					// the last handle that had touched the file is closed: the file must be released
-					free, perr := mon.LockFree(spec.Files[hd.file].Path)
+					free, perr := lockFreeSoon(spec.Files[hd.file].Path)
 					res.LockProbes++
 					if perr != nil || !free {
 						add("op %d: after the last Close on file %d the file is still locked (probe error: %v)", oi, hd.file, perr)
@@ -321,7 +354,7 @@ func workerC17(args []string) int {
 		}
 		if len(res.Violations) == 0 {
 			for fi, f := range spec.Files {
-				free, perr := mon.LockFree(f.Path)
+				free, perr := lockFreeSoon(f.Path)
 				res.LockProbes++
 				if perr != nil || !free {
 					add("at the end of the history file %d is still locked although every handle is closed", fi)
@@ -411,9 +444,16 @@ func c17GenHistory(rng *rand.Rand, id string, nfiles, nq int) c17History {
 			switch {
 			case len(live) == 0 || rng.Intn(4) == 0:
 				live = append(live, open(rng.Intn(nfiles), c17OptStrings[rng.Intn(len(c17OptStrings))]))
-				if rng.Intn(3) == 0 {
+				switch rng.Intn(6) {
+				case 0, 1:
 					h.Ops = append(h.Ops, c17Op{Op: "pool", H: live[len(live)-1], N: 1 + rng.Intn(8)})
+				case 2:
+					h.Ops = append(h.Ops, c17Op{Op: "idle0", H: live[len(live)-1]})
+				case 3:
+					h.Ops = append(h.Ops, c17Op{Op: "lifetime", H: live[len(live)-1]})
 				}
+			case rng.Intn(12) == 0:
+				h.Ops = append(h.Ops, c17Op{Op: "open-bad", File: rng.Intn(nfiles), N: rng.Intn(2)})
 			case rng.Intn(4) == 0:
 				k := rng.Intn(len(live))
 				closeH(live[k])
@@ -542,6 +582,7 @@ func runC17(r *vf.Run) {
 				r.Count("same_option_shared_handles", int64(hr.SameOptionShare))
 				r.Count("lock_probes", int64(hr.LockProbes))
 				r.Count("lock_probe_saw_held_file", int64(hr.HeldProbes))
+				r.Count("unopenable_data_sources_tried", int64(hr.BadOpens))
 				r.Max("distinct_file_option_keys_live_at_once", int64(hr.MaxKeysLive))
 				for _, v := range hr.Violations {
 					var hist c17History
@@ -593,4 +634,20 @@ func runC17(r *vf.Run) {
 	r.Floor(">= 10 concurrent first-use rounds", r.GetCount("concurrent_first_use_rounds") >= 10)
 	r.Floor("lock probes performed", r.GetCount("lock_probes") >= 10)
 	r.Floor("the lock probe saw a held file (probe works)", r.GetCount("lock_probe_saw_held_file") >= 1)
+}
+
+// lockFreeSoon probes the file lock; database/sql may close an expired connection from its cleaner goroutine a
+// moment after DB.Close returned, so the probe is repeated for a bounded time. A leaked handle never goes away, so
+// waiting cannot turn a leak into a pass.
+func lockFreeSoon(path string) (bool, error) {
+	var free bool
+	var err error
+	for i := 0; i < 300; i++ {
+		free, err = mon.LockFree(path)
+		if err != nil || free {
+			return free, err
+		}
+		time.Sleep(10 * time.Millisecond)
+	}
+	return free, err
 }
